@@ -537,4 +537,52 @@ void queue_mt(const vf::opts &o, vf::report &R, vf::team &T, uint64_t rounds) {
     }
 }
 
+// unblock_pop under contention: K consumers are parked in setup (their number is known exactly), thread 0 calls unblock_pop K+1 times
+// while the other threads only call size()/empty(). Every one of the first K calls must report true and fail the OLDEST waiting pop.
+struct qub_round {
+    std::unique_ptr<cocls::queue<tracked>> q;
+    std::deque<pop_rec> pops;
+    int k = 0;
+    std::atomic<int> stop{0};
+    int results[8] = {};
+};
+inline void queue_unblock_contended(const vf::opts &o, vf::report &R, vf::team &T, uint64_t rounds) {
+    static const int sites[] = {q_unblock_unlocked, prom_claim_pre, aw_chain_pre, q_pop_entry};
+    vf::rng master(vf::mix(o.seed, 0x209));
+    for (uint64_t rn = 0; rn < rounds && R.nviol() < 5; rn++) {
+        uint64_t rseed = master.next();
+        vf::rng r(rseed);
+        auto Xp = std::make_unique<qub_round>();
+        qub_round &X = *Xp;
+        X.q = std::make_unique<cocls::queue<tracked>>();
+        X.k = 1 + (int)r.below(4);
+        for (int i = 0; i < X.k; i++) { X.pops.emplace_back(); X.pops.back().mode = 1; pop_consumer(*X.q, X.pops.back()).detach(); }
+        std::string desc = "waiting_pops=" + std::to_string(X.k) + " readers=" + std::to_string(T.n - 1);
+        std::string plan = T.plan(r, sites, 4);
+        vf::set_crash_ctx(R.prop.c_str(), "queue_unblock_contended", o.seed, rn, (desc + "; " + plan).c_str());
+        T.round([&](int tid) {
+            vf::start_offset(rseed, tid);
+            if (tid == 0) {
+                for (int i = 0; i <= X.k; i++) X.results[i] = (bool)X.q->unblock_pop(vf::make_exc(100 + i));
+                X.stop.store(1, std::memory_order_relaxed);
+            } else {
+                size_t acc = 0;
+                while (!X.stop.load(std::memory_order_relaxed)) { acc += X.q->size(); acc += X.q->empty(); }
+                (void)acc;
+            }
+        });
+        R.cases++;
+        std::string err;
+        for (int i = 0; i < X.k && err.empty(); i++) {
+            if (!X.results[i]) err = "unblock_pop #" + std::to_string(i) + " reported 'nobody is awaiting' while " + std::to_string(X.k - i) + " pops were waiting";
+            else if (!(X.pops[(size_t)i].seen.state == PS_EXC && X.pops[(size_t)i].seen.code == 100 + i)) err = "unblock_pop #" + std::to_string(i) + " did not fail the oldest waiting pop (pop #" + std::to_string(i) + " saw " + X.pops[(size_t)i].seen.str() + ")";
+        }
+        if (err.empty() && X.results[X.k]) err = "unblock_pop reported true although nobody was waiting any more";
+        if (!err.empty()) { R.violation("monitor:unblock|queue_unblock_contended", err, vf::jobj().kv("round", (unsigned long long)rn).kv("seed", (unsigned long long)o.seed).kv("desc", desc).kv("stall_plan", plan).str()); (void)Xp.release(); continue; }
+        R.nontrivial_cases++;
+        R.sig(desc + (T.stalls_fired_last_round() ? " S" : ""));
+        if (rn < 2) R.sample(vf::jobj().kv("round", desc).kv("result", "every unblock_pop hit the oldest waiting pop").str());
+    }
+}
+
 } // namespace scn
